@@ -35,6 +35,16 @@ func TestBinary(t *testing.T) {
 			// a second, partially cached round
 			h.Steps = append(h.Steps, histeng.Step{Kind: "bump-nonce", T: rapid.IntRange(0, 9).Draw(t, "t")},
 				histeng.Step{Kind: "build", Build: &histeng.BuildOpts{Patterns: []string{"//..."}}})
+			// a third round under load_outputs=minimal in which cached dependencies have to be brought back (fresh checkout)
+			// or re-run because their blobs are gone: also that work has to stay within the worker bound
+			switch rapid.IntRange(0, 2).Draw(t, "third") {
+			case 1:
+				h.Steps = append(h.Steps, histeng.Step{Kind: "perturb-clean"}, histeng.Step{Kind: "bump-nonce", T: rapid.IntRange(0, 9).Draw(t, "t3")},
+					histeng.Step{Kind: "build", Build: &histeng.BuildOpts{Patterns: []string{"//..."}, LoadOutputs: "minimal"}})
+			case 2:
+				h.Steps = append(h.Steps, histeng.Step{Kind: "fault-wipe-cas"}, histeng.Step{Kind: "bump-nonce", T: rapid.IntRange(0, 9).Draw(t, "t3")},
+					histeng.Step{Kind: "build", Build: &histeng.BuildOpts{Patterns: []string{"//..."}, LoadOutputs: "minimal"}})
+			}
 			return h
 		},
 		Run: func(h histeng.History) (pbt.Result, error) {
